@@ -904,6 +904,44 @@ PY_STRINGS = [
 ]
 
 
+class PyAstGen:
+    """random Python expression ASTs built directly (every binary, unary, boolean and comparison
+    operator, chains, conditionals, calls, subscripts, attributes): the importer's whole table"""
+
+    def __init__(self, rng):
+        self.rng = rng
+
+    def leaf(self):
+        r = self.rng
+        if r.random() < 0.55:
+            return ast.Name(id=r.choice(["a", "b", "c", "x", "y"]), ctx=ast.Load())
+        return ast.Constant(r.choice([0, 1, 2, 3, 5, 7, True, False, 10]))
+
+    def gen(self, d):
+        r = self.rng
+        if d <= 0 or r.random() < 0.12:
+            return self.leaf()
+        k = r.random()
+        if k < 0.34:
+            op = r.choice([o for o in _BIN if o is not ast.MatMult])
+            return ast.BinOp(self.gen(d - 1), op(), self.gen(d - 1))
+        if k < 0.46:
+            return ast.UnaryOp(r.choice(list(_UN))(), self.gen(d - 1))
+        if k < 0.58:
+            return ast.BoolOp(r.choice([ast.And, ast.Or])(),
+                              [self.gen(d - 1) for _ in range(r.randint(2, 3))])
+        if k < 0.84:
+            n = 1 if r.random() < 0.8 else 2
+            return ast.Compare(self.gen(d - 1), [r.choice(list(_CMP))() for _ in range(n)],
+                               [self.gen(d - 1) for _ in range(n)])
+        if k < 0.92:
+            return ast.IfExp(self.gen(d - 1), self.gen(d - 1), self.gen(d - 1))
+        if k < 0.96:
+            return ast.Call(ast.Name(id=r.choice(["f", "g"]), ctx=ast.Load()),
+                            [self.gen(d - 1) for _ in range(r.randint(0, 2))], [])
+        return ast.Subscript(ast.Name(id="v", ctx=ast.Load()), self.gen(d - 1), ast.Load())
+
+
 class FromAstStream(Stream):
     """ASTToPymbolic on Python's own parse of source text and on the mapper's ASTs: the imported
     tree vs `fromAst`; its reference value vs CPython's value of the AST"""
@@ -920,6 +958,10 @@ class FromAstStream(Stream):
             except (SyntaxError, Unencodable, KeyError):
                 continue
             yield {"ast": sx, "envs": envs_payload(rng, 1), "src": "python-text"}
+        pg = PyAstGen(rng)
+        for _ in range(1200 * n):
+            sx = dumps(ast_to_sx(pg.gen(rng.randint(1, 4))))
+            yield {"ast": sx, "envs": envs_payload(rng, 2), "src": "python-ast"}
         from pymbolic.interop.ast import to_python_ast
         for src, e in gen_exprs(rng, tier, 500 * n, 200 * n, two=False):
             try:
